@@ -1486,6 +1486,12 @@ func (m *Leaf) clone(parent Meta) interface{} {
 		}
 	}
 	
+	if m.dtype != nil {
+		// each copy compiles its own type: default and units are inherited per leaf
+		dtype := *m.dtype
+		copy.dtype = &dtype
+	}
+	
 
 	return &copy
 }
@@ -1712,6 +1718,12 @@ func (m *LeafList) clone(parent Meta) interface{} {
 		for i, must := range m.musts {
 			copy.musts[i] = must.clone(&copy).(*Must)
 		}
+	}
+	
+	if m.dtype != nil {
+		// each copy compiles its own type: default and units are inherited per leaf
+		dtype := *m.dtype
+		copy.dtype = &dtype
 	}
 	
 
